@@ -159,7 +159,9 @@ def check(ctx):
     n = import_rules(ctx, "c15", ("C15.3",), "C11.8",
                      pred=lambda o: ":motion_filter:" in o.key or
                      ":downsample:" in o.key)
-    ctx.require(n >= 4, "C11.8: evo_traj filter wiring instances not found")
+    # (at least one down-sampling and one motion-filter site: a single loop
+    # over all trajectories incl. the reference is one site each)
+    ctx.require(n >= 3, "C11.8: evo_traj filter wiring instances not found")
     n = import_rules(ctx, "c08", ("C08.7",), "C11.6")
     ctx.require(n >= 4, "C11.6: derived-quantity instances not found")
 
@@ -232,9 +234,26 @@ def _motion(ctx, prog):
     from ..lib import extra_defaults
     # (parameters added later are analysed at their defaults; what the
     # method passes for them is judged at its call)
+    # the unit of the angle threshold is chosen by the fourth parameter: the
+    # `degrees` flag, or an enumeration with members radians / degrees
+    ctx.require(len(f.params) >= 4, "filter_by_motion signature changed")
+    SEL = f.params[3]
     extra = extra_defaults(f, ["poses", "distance_threshold",
-                               "angle_threshold", "degrees"])
+                               "angle_threshold", SEL], prog)
     ctx.require(extra is not None, "filter_by_motion signature changed")
+    if SEL == "degrees":
+        worlds = [(False, const(False)), (True, const(True))]
+    else:
+        d0 = extra_defaults(f, ["poses", "distance_threshold",
+                                "angle_threshold"], prog)
+        sel0 = (d0 or {}).get(SEL)
+        ctx.require(sel0 is not None and sel0.op == "enum" and
+                    {"radians", "degrees"} <= set(
+                        prog.enum_members(sel0.args[0]) or ()),
+                    "filter_by_motion signature changed (angle unit "
+                    "selector not recognised)")
+        worlds = [(False, tm.enum(sel0.args[0], "radians")),
+                  (True, tm.enum(sel0.args[0], "degrees"))]
     poses = tm.param("poses")
     thr_d = tm.param("distance_threshold")
     thr_a_raw = tm.param("angle_threshold")
@@ -244,7 +263,7 @@ def _motion(ctx, prog):
     # thresholds >= 0 are in the property's range, 0 included ("keeps a
     # later pose if ... reached the threshold" — every pose for 0): an input
     # guard may refuse negative values only
-    r0 = Interp(prog).run(f, dict(extra, degrees=const(False)))
+    r0 = Interp(prog).run(f, dict(extra, **{SEL: worlds[0][1]}))
     for e in r0.of_kind("raise"):
         for a in tm.atoms(e.live):
             n_ = norm_cmp(a)
@@ -264,8 +283,8 @@ def _motion(ctx, prog):
                                 f"refused ({fmt(a)}), although thresholds "
                                 f">= 0 incl. 0 are valid",
                            key=f"C11.2:guard:{thr.args[0]}")
-    for deg in (False, True):
-        r = Interp(prog).run(f, dict(extra, degrees=const(deg)))
+    for deg, selv in worlds:
+        r = Interp(prog).run(f, dict(extra, **{SEL: selv}))
         ctx.analysed["configs"] += 1
         ret = r.ret
         if ret.op != "loopout":
@@ -489,7 +508,9 @@ def _motion(ctx, prog):
         ok = b.get("poses") is tm.attr(SELF, "poses_se3") and \
             b.get("distance_threshold") is tm.param("distance_threshold") \
             and b.get("angle_threshold") is tm.param("angle_threshold") and \
-            b.get("degrees") is tm.param("degrees")
+            (b.get(SEL) is tm.param(SEL) or (
+                SEL not in m.params and _unit_forwarding(
+                    prog, m, b.get(SEL), worlds)))
         # an added parameter may only be given what the filter would compute
         # itself: the accumulated distances of the same object
         for k, v in b.items():
@@ -499,12 +520,48 @@ def _motion(ctx, prog):
             own = all(a is tm.attr(SELF, "distances") for a in alts)
             if k == "distances" and own:
                 continue
+            # the method's own like-added parameter with the same default
+            if v.op == "param" and v.args[0] in m.params[4:] + list(
+                    m.kwonly):
+                md = extra_defaults(m, m.params[:4], prog) or {}
+                if md.get(v.args[0]) is extra[k]:
+                    continue
             ctx.undecidable("C11.2", c[0],
                             f"motion_filter passes {k}={fmt(v)[:80]} to the "
                             f"added parameter of filter_by_motion")
     ctx.ob("C11.2", m, ok,
            "PosePath3D.motion_filter passes its own poses and the "
            "like-named thresholds", key="C11.2:method-wiring")
+
+
+def _unit_forwarding(prog, m, got, worlds) -> bool:
+    """the method selects the unit differently from the filter (a `degrees`
+    flag in front of a unit enumeration or the other way round): what it
+    passes on must be the filter's degrees world exactly when its own
+    selector says degrees"""
+    if got is None or len(m.params) < 4:
+        return False
+    msel = m.params[3]
+    if msel == "degrees":
+        mine = [(False, const(False)), (True, const(True))]
+    else:
+        from ..lib import extra_defaults
+        d0 = extra_defaults(m, m.params[:3], prog)
+        s0 = (d0 or {}).get(msel)
+        if s0 is None or s0.op != "enum":
+            return False
+        mine = [(False, tm.enum(s0.args[0], "radians")),
+                (True, tm.enum(s0.args[0], "degrees"))]
+    for (deg, mv), (_, fv) in zip(mine, worlds):
+        rm_ = Interp(prog).run(m, {msel: mv})
+        c = rm_.calls("evo.core.filters.filter_by_motion")
+        if len(c) != 1:
+            return False
+        v = (c[0].data["bound"] or {}).get(
+            prog.func("evo.core.filters.filter_by_motion").params[3])
+        if v is not fv:
+            return False
+    return True
 
 
 def _canonical_candidates(it: Optional[T], lid: int, poses: T, accf: str):
